@@ -83,10 +83,34 @@ var partPool = [][]string{
 }
 var badTags = []string{"", "novalue", "{p=1", "a=b=c,,"}
 
+// a field text with a name or a value at the limit of the one-byte length prefix: 254, 255 (stored), 256, 257 bytes
+// (cannot be stored: a write-level text is rejected, an event's own text gives no fields)
+func genLongKV(r *Rng) string {
+	n := r.PickInt(254, 255, 255, 256, 256, 257)
+	piece := string(r.Bytes(n, []byte("abcdefghijklmnopqrstuvwxyz0123456789")))
+	var kv string
+	if r.Chance(1, 4) {
+		kv = piece + "=v"
+	} else {
+		kv = "k=" + piece
+	}
+	switch r.Intn(3) {
+	case 0:
+		kv = "host=h1," + kv
+	case 1:
+		kv = kv + ",z=9"
+	}
+	return kv
+}
+
 func genBatchAE(r *Rng, n int, budget *int) []AE {
 	var evs []AE
 	for i := 0; i < n; i++ {
 		e := AE{Ts: genTs(r), Msg: genMsg(r), Flds: genKV(r)}
+		if r.Chance(1, 30) && *budget > 600 {
+			e.Flds = genLongKV(r)
+			*budget -= 260
+		}
 		if len(e.Msg) > 60 && *budget < 400 {
 			e.Msg = e.Msg[:10]
 		}
@@ -146,6 +170,13 @@ func genE2E(r *Rng) E2EReplay {
 		switch x := r.Intn(10); {
 		case x < 6 && n >= 2 && r.Chance(1, 3):
 			rp.Reqs = append(rp.Reqs, Req{Kind: "rpc", Tags: tags, Flds: r.PickStr("", "", "w=1"), Aes: sameShapeAEs(r, n, &budget)})
+		case x < 6 && budget > 1000 && r.Chance(1, 6):
+			// write-level fields at the length limit: every event of the batch carries them
+			if n > 3 {
+				n = 3
+			}
+			budget -= 270 * (n + 1)
+			rp.Reqs = append(rp.Reqs, Req{Kind: "rpc", Tags: tags, Flds: genLongKV(r), Aes: genBatchAE(r, n, &budget)})
 		case x < 6:
 			rp.Reqs = append(rp.Reqs, Req{Kind: "rpc", Tags: tags, Flds: genKV(r), Aes: genBatchAE(r, n, &budget)})
 		case x < 9 && n >= 2 && r.Chance(1, 3):
@@ -259,7 +290,25 @@ func corpus() []Replay {
 			{Ts: 4, Msg: []byte("0123456789012345678901234567890123456789")}, {Ts: 5, Msg: []byte{}}, {Ts: -6, Msg: []byte{0, 255}}}},
 		{Kind: "dir", Tags: "app=a, p=1", Les: []LE{{Ts: 9, Msg: []byte("direct")}}},
 	}}
-	return []Replay{{E2E: &oversize}, {E2E: &trunc}, {E2E: &roll}}
+	// field names/values at the limit of the one-byte length prefix (255 stored, 256 and 257 not), write-level and
+	// per event. The 256 bytes value is built so that, should it be stored with its length wrapped to 0, the list
+	// still scans (as other pairs) and the read shows the different fields instead of crashing the reader
+	v256 := "@" + strings.Repeat("a", 64) + ">" + strings.Repeat("b", 62) + "@" + strings.Repeat("c", 64) + ">" + strings.Repeat("d", 62)
+	v255, v257 := v256[:255], v256+"e"
+	three := func(base int64, own string) []AE {
+		return []AE{{Ts: base, Msg: []byte("m0"), Flds: own}, {Ts: base + 1, Msg: []byte("m1")}, {Ts: base + 2, Msg: []byte("m2"), Flds: "a=1"}}
+	}
+	limit := E2EReplay{Kind: "e2e", MaxChunk: 65536, MaxRec: 4096, Note: "field names and values of 255 / 256 / 257 bytes", Reqs: []Req{
+		{Kind: "rpc", Tags: "p=1,app=a", Flds: "host=h1,k=" + v255, Aes: three(10, "e=5")},
+		{Kind: "rpc", Tags: "p=1,app=a", Flds: "host=h1,k=" + v256, Aes: three(20, "")},
+		{Kind: "rpc", Tags: "p=1,app=a", Flds: "host=h1,k=" + v257, Aes: three(30, "")},
+		{Kind: "rpc", Tags: "p=1,app=a", Flds: v256[:255] + "=n", Aes: three(40, "")},
+		{Kind: "rpc", Tags: "p=1,app=a", Flds: v256 + "=n", Aes: three(50, "")},
+		{Kind: "rpc", Tags: "p=1,app=a", Flds: "w=1", Aes: three(60, "k="+v255)},
+		{Kind: "rpc", Tags: "p=1,app=a", Flds: "w=1", Aes: three(70, "k="+v256)},
+		{Kind: "rpc", Tags: "p=1,app=a", Flds: "", Aes: three(80, "k="+v257+",x=y")},
+	}}
+	return []Replay{{E2E: &oversize}, {E2E: &trunc}, {E2E: &roll}, {E2E: &limit}}
 }
 
 // ---------------------------------------------------------------- crash isolation
